@@ -158,6 +158,14 @@ def run(ctx):
                               {"cmd": "lookup %s %d" % (key, e["opcode"]), "real": real})
             elif first is e and (real.get("opname") != e["opname"] or real.get("operands") != mine):
                 ctx.ob("%s/table-extraction-matches-compiled/%s" % (key, e["opname"]), None, "real=%s mine=%s" % (real, mine))
+        # ---- every entry's number converts to an enumerant on the compiled crate (the table and the enumeration agree both ways)
+        for num_, nm_ in sorted(set((e["opcode"], e["opname"]) for e in entries)):
+            real = rp.ask("from_u32 %s %d" % (ename, num_))
+            if real.get("some") is False:
+                ctx.ob("%s/entry-is-an-enumerant/%s" % (key, nm_), False)
+                ctx.violation("grammar/%s/entry-without-enumerant/%s" % (key, nm_), "%s table has an entry %s = %d but %s::from_u32(%d) is None" % (key, nm_, num_, ename, num_),
+                              {"cmd": "from_u32 %s %d" % (ename, num_), "real": real})
+                break
         # ---- well-formedness, as SMT over the entry arrays
         wellformed(ctx, q, key, entries, T)
         # ---- snapshot
